@@ -618,6 +618,9 @@ def preserving():
           'self.parser.parseError(errorcode="unexpected-doctype")', None),
         T("extra-var", "html5parser.py", 'self.parser.parseError("two-heads-are-not-better-than-one")',
           'self.parser.parseError("two-heads-are-not-better-than-one", {"name": token["name"]})', None),
+        # the acknowledgement moved into a helper that the handler always calls
+        T("ack-in-helper", "html5parser.py", "    def startTagParamSource(self, token):\n        self.tree.insertElement(token)\n        self.tree.openElements.pop()\n        token[\"selfClosingAcknowledged\"] = True\n",
+          "    def insertVoid(self, token):\n        self.tree.insertElement(token)\n        self.tree.openElements.pop()\n        token[\"selfClosingAcknowledged\"] = True\n\n    def startTagParamSource(self, token):\n        self.insertVoid(token)\n", None),
     ]
 
 
